@@ -369,6 +369,51 @@ def early_exits(path: PathResult, fam=None):
     return out
 
 
+def _formats_formula(d):
+    """a text built from a formula: str(f) / repr(f) / a formatted string with a formula among its parts"""
+    if isinstance(d, tuple):
+        if d[:1] in (("str",), ("repr",)) and len(d) > 1 and isinstance(d[1], tuple) and (d[1][:1] == ("f",) or _formats_formula(d[1])):
+            return True
+        if d[:1] == ("name",) and len(d) > 1 and isinstance(d[1], tuple) and any(isinstance(x, tuple) and x[:1] == ("f",) for x in d[1]):
+            return True
+        return any(_formats_formula(x) for x in d)
+    return False
+
+
+def _process_local(d):
+    """an identity that means something only inside the process that made it: id(x), hash(x), pysmt's node_id()"""
+    if isinstance(d, tuple):
+        if d[:1] == ("mcall",) and len(d) > 2 and d[2] in ("node_id", "__hash__"):
+            return True
+        if d[:1] == ("call",) and len(d) > 1 and d[1] in ("builtins.id", "builtins.hash", "id", "hash"):
+            return True
+        return any(_process_local(x) for x in d)
+    return False
+
+
+def memo_keys(path: PathResult):
+    """Keys under which a path stores into or looks up in a mapping: [(what, key descriptor, node)] for the keys that are a
+    formula's text or a process-local identity."""
+    out = []
+    for ev, Q in iter_events(path.events):
+        if ev.kind in ("dict.set", "dict.get.unknown", "dict.get.generic", "dict.get.symbolic", "setitem.unknown", "subscript.unknown"):
+            k = ev.data.get("key", ev.data.get("idx"))
+            if k is None:
+                continue
+            d = desc(k)
+            if _formats_formula(d):
+                out.append(("text", d, ev.node))
+            elif _process_local(d):
+                out.append(("local-id", d, ev.node))
+    for k, v in path.decisions:
+        if k[0] == "in" and len(k) > 2:
+            if _formats_formula(k[1]):
+                out.append(("text", k[1], None))
+            elif _process_local(k[1]):
+                out.append(("local-id", k[1], None))
+    return out
+
+
 def pred_on_path(path: PathResult, pred):
     """Value of a Boolean combination of predicates under the decisions of a path (None when undetermined)."""
     if not isinstance(pred, tuple) or not pred:
